@@ -48,10 +48,31 @@ class DateTimeV:
 
         if name == "replace":
             def f(ex, st, args, kwargs, node):
-                if set(kwargs) != {"microsecond"} or args:
+                if args or not set(kwargs) <= {"hour", "minute", "second", "microsecond"}:
                     raise Unsupported("datetime.replace")
-                yield st, DateTimeV(self.sec, kwargs["microsecond"], self.tz)
+                # time-of-day fields on the naive wall-clock axis: sec = day * 86400 + hour * 3600 + minute * 60 + second
+                from .values import to_int_term
+                sec = _t(self.sec)
+                day, tod = sec / 86400, sec % 86400  # SMT-LIB div / mod: floor for a positive divisor, like the calendar
+                parts = {"hour": tod / 3600, "minute": (tod % 3600) / 60, "second": tod % 60}
+                for k in ("hour", "minute", "second"):
+                    if k in kwargs:
+                        v = to_int_term(kwargs[k])
+                        ex.need(st, z3.And(v >= 0, v < (24 if k == "hour" else 60)), "ValueError", node)
+                        parts[k] = v
+                micro = self.micro
+                if "microsecond" in kwargs:
+                    micro = kwargs["microsecond"]
+                    if not isinstance(micro, int):
+                        micro = to_int_term(micro)
+                    ex.need(st, z3.And(_t(micro) >= 0, _t(micro) < 1000000), "ValueError", node)
+                new_sec = sec if not (set(kwargs) & {"hour", "minute", "second"}) else _simp(day * 86400 + parts["hour"] * 3600 + parts["minute"] * 60 + parts["second"])
+                yield st, DateTimeV(new_sec, micro, self.tz)
             yield st, Builtin("datetime.replace", f)
+            return
+        if name in ("hour", "minute", "second", "microsecond"):
+            tod = _t(self.sec) % 86400
+            yield st, SInt(_simp({"hour": tod / 3600, "minute": (tod % 3600) / 60, "second": tod % 60, "microsecond": _t(self.micro)}[name]))
             return
         if name == "tzinfo":
             yield st, self.tz
